@@ -14,9 +14,13 @@ class Ctx:
     """Where an op is applied: family / kind / implementation."""
     __slots__ = ('fam', 'kind', 'impl', 'cls', 'is_map', 'is_tree')
 
-    def __init__(self, fam, kind, impl):
+    def __init__(self, fam, kind, impl, subclass_sizes=None):
         self.fam, self.kind, self.impl = fam, kind, impl
         self.cls = F.cls(fam, kind, impl)
+        if subclass_sizes:
+            self.cls = type(self.cls.__name__ + 'Sub', (self.cls,),
+                            {'max_leaf_size': subclass_sizes[0],
+                             'max_internal_size': subclass_sizes[1]})
         self.is_map = F.is_map(kind)
         self.is_tree = F.is_tree(kind)
 
